@@ -747,18 +747,41 @@ func (c *vStmtCache) Get(ctx context.Context, name string) (*Statement, error) {
 type vPortalCache struct {
 	inner PortalCache
 	binds int
+	// direct: the cache keeps the portals itself and runs the statement function
+	// itself with the context it is handed (an implementation inside the module,
+	// or one written against a future exported accessor) instead of delegating;
+	// the choice is the solver's
+	direct bool
+	m      map[string]*Portal
 }
 
-func vNewPortalCache() *vPortalCache { return &vPortalCache{inner: DefaultPortalCacheFn()} }
+func vNewPortalCache() *vPortalCache {
+	return &vPortalCache{inner: DefaultPortalCacheFn(), direct: nondetBool(), m: map[string]*Portal{}}
+}
 
 func (c *vPortalCache) Bind(ctx context.Context, name string, stmt *Statement, params []Parameter, formats []FormatCode) error {
 	c.binds++
+	if c.direct {
+		c.m[name] = &Portal{statement: stmt, parameters: params, formats: formats}
+		return nil
+	}
 	return c.inner.Bind(ctx, name, stmt, params, formats)
 }
 func (c *vPortalCache) Get(ctx context.Context, name string) (*Portal, error) {
+	if c.direct {
+		return c.m[name], nil
+	}
 	return c.inner.Get(ctx, name)
 }
 func (c *vPortalCache) Execute(ctx context.Context, name string, reader *buffer.Reader, writer *buffer.Writer) error {
+	if c.direct {
+		p := c.m[name]
+		if p == nil {
+			return NewErrUnkownStatement(name)
+		}
+		vReach("portal-cache-that-runs-the-statement-itself")
+		return p.statement.fn(ctx, NewDataWriter(ctx, p.statement.columns, p.formats, reader, writer), p.parameters)
+	}
 	return c.inner.Execute(ctx, name, reader, writer)
 }
 
